@@ -144,7 +144,8 @@ where
                 break;
             }
         }
-        for c in self.text().chars().rev() {
+        //(don't trim from the end what was already trimmed from the beginning)
+        for c in self.text().chars().rev().take(self.textlen() - trimbegin) {
             if chars.contains(&c) {
                 trimend -= 1;
             } else {
@@ -172,7 +173,8 @@ where
                 break;
             }
         }
-        for c in self.text().chars().rev() {
+        //(don't trim from the end what was already trimmed from the beginning)
+        for c in self.text().chars().rev().take(self.textlen() - trimbegin) {
             if f(c) {
                 trimend -= 1;
             } else {
